@@ -14,7 +14,19 @@ stats = {"z3_queries": 0, "z3_seconds": 0.0, "cvc5_queries": 0, "cvc5_seconds": 
 _feas_cache = {}
 
 
+_HQ = {}
+_HQ_KEEP = []
+
+
 def has_quant(e):
+    k = e.get_id()
+    if k not in _HQ:
+        _HQ[k] = _has_quant(e)
+        _HQ_KEEP.append(e)
+    return _HQ[k]
+
+
+def _has_quant(e):
     seen = set()
     stack = [e]
     while stack:
@@ -103,6 +115,11 @@ def prove(hyps, goal, timeout_ms=None, use_cvc5=True, plain=False, cheap=False):
             if r2 == "unsat":
                 return "proved", None, "cvc5", time.time() - t0
         return "unknown", None, "z3", time.time() - t0
+    if not has_quant(goal):
+        # stage 0: the quantifier-free hypotheses alone often suffice (range facts are instantiated on reads)
+        r, s = _check([h for h in hyps if not has_quant(h)] + [z3.Not(goal)], tmo)
+        if r == z3.unsat:
+            return "proved", None, "z3", time.time() - t0
     inst = instantiate.Inst()
     items = inst.prepare_goal(goal)
     backend = "z3+inst"
